@@ -30,7 +30,7 @@ func zzQuote(args []string) string {
 func zzQuoteWhenNeeded(args []string) string {
 	var parts []string
 	for _, a := range args {
-		if a != "" && !strings.ContainsAny(a, " \t\"'\\") {
+		if a != "" && !strings.ContainsAny(a, " \t\n\r\"'\\") {
 			parts = append(parts, a)
 			continue
 		}
@@ -44,7 +44,7 @@ func TestZZVerifRoundTrip(t *testing.T) {
 	if K == 0 {
 		t.Skip("VERIF_C17_K not set")
 	}
-	alphabet := []rune{'a', ' ', '\t', '"', '\'', '\\', '-', '$', 'é', 'à'}
+	alphabet := []rune{'a', ' ', '\t', '"', '\'', '\\', '-', '$', 'é', 'à', '\n'}
 	checked, maxq := 0, 0
 	var fail []string
 	var gen func(args []string, cur []rune, budget int)
